@@ -300,3 +300,98 @@ func ruleC16Windows(cx *Ctx) []Obligation {
 	}
 	return []Obligation{good(key, desc, fmt.Sprintf("%d window(s)", windows))}
 }
+
+// ruleC16ChainEnds (O16.6): the chain of running products is closed at both ends in every round, for every circuit
+// shape: in each function of package plonk that reads Z(gζ) (an element of openings.PlonkZsNext), that element and an
+// element of openings.PlonkZs are read and used in a block that executes on every path
+// through the function (once per iteration of the enclosing loops). A closing link emitted only from inside the loop
+// over the partial products (or under a condition) disappears when NumPartialProducts is 0 — routed wires ≤ chunk
+// size — and then no permutation check is produced at all; shapes with at least one partial product, such as the
+// shipped one, behave as before.
+func ruleC16ChainEnds(cx *Ctx) []Obligation {
+	P := cx.P
+	key := "C16/O16.6/chain-ends"
+	desc := "in every round the chain of running products starts at Z(ζ) and ends at Z(gζ) for every circuit shape: the function reading the round's PartialProducts window reads and uses an element of PlonkZs and of PlonkZsNext on every path (not only inside a loop over the partial products or under a condition — with NumPartialProducts = 0 such a link is never emitted)"
+	var obs []Obligation
+	found := 0
+	for _, fn := range P.ModuleFuncsSorted() {
+		if fnPkgShort(fn) != "plonk" || fn.Blocks == nil {
+			continue
+		}
+		readsWindow := false
+		type rd struct {
+			must bool
+			used bool
+			site string
+		}
+		reads := map[string][]rd{}
+		fi := GetFnInfo(fn)
+		for _, b := range fn.Blocks {
+			for _, ins := range b.Instrs {
+				v, ok := ins.(ssa.Value)
+				if !ok {
+					continue
+				}
+				if sl, isSl := v.(*ssa.Slice); isSl {
+					ap := accessPath(sl.X, 0)
+					if strings.HasSuffix(ap, ".PartialProducts") && !strings.Contains(ap, "NumPartialProducts") && (sl.Low != nil || sl.High != nil) {
+						readsWindow = true
+					}
+				}
+				ld, isLd := v.(*ssa.UnOp)
+				if !isLd || ld.Op != token.MUL {
+					continue
+				}
+				ia, isIA := ld.X.(*ssa.IndexAddr)
+				if !isIA {
+					continue
+				}
+				base := accessPath(ia.X, 0)
+				for _, f := range []string{"PlonkZs", "PlonkZsNext"} {
+					if strings.HasSuffix(base, "."+f) {
+						used := false
+						if ld.Referrers() != nil {
+							for _, r := range *ld.Referrers() {
+								if _, dbg := r.(*ssa.DebugRef); !dbg {
+									used = true
+								}
+							}
+						}
+						reads[f] = append(reads[f], rd{fi.MustBlock(b), used, P.Pos(ld.Pos())})
+					}
+				}
+			}
+		}
+		_ = readsWindow
+		if len(reads["PlonkZsNext"]) == 0 {
+			continue // the function closing the chain is the one that reads Z(gζ)
+		}
+		found++
+		site := P.FnName(fn) + " " + P.Pos(fn.Pos())
+		var whys []string
+		for _, f := range []string{"PlonkZs", "PlonkZsNext"} {
+			okf := false
+			for _, r := range reads[f] {
+				if r.must && r.used {
+					okf = true
+				}
+			}
+			switch {
+			case okf:
+			case len(reads[f]) == 0:
+				whys = append(whys, "no element of openings."+f+" is read in the function that reads the round's partial products")
+			default:
+				whys = append(whys, "openings."+f+" is read only conditionally / inside a loop that may not run ("+reads[f][0].site+")")
+			}
+		}
+		if len(whys) > 0 {
+			obs = append(obs, bad(key, desc, strings.Join(whys, " | "), site))
+		} else {
+			obs = append(obs, good(key, desc, site))
+		}
+	}
+	if found == 0 {
+		obs = append(obs, bad(key, desc, "no function of package plonk reads an element of openings.PlonkZsNext: the chain of running products is not closed"))
+	}
+	return obs
+}
